@@ -17,7 +17,7 @@ def run(ck, build):
             "(e.g. the alignment of the nonce pointer), and every bit of the twelve nonce bytes enters that state on every class (necessary for a modified nonce to be rejected)")
     ck.rule("R-C08-PASS", "RELATIONAL, per path class of the keystream pass: same permutation call(s) in both directions (callee, rounds, key, input state); decrypt applied to encrypt's output-byte terms gives "
             "back the plaintext bytes bit for bit; the state after a whole block agrees; decrypt returns check_tag's verdict on the regenerated tag")
-    ck.rule("R-C08-SMALL", "independent of the loop structure and of the mode's constants: each SIV function for EVERY message length 0..40 as straight path(s): length stored, exactly the output bytes "
+    ck.rule("R-C08-SMALL", "independent of the loop structure and of the mode's constants: each SIV function for EVERY message length 0..100 as straight path(s): length stored, exactly the output bytes "
             "written, tag written / read right behind the message, load before store per offset, no read outside the input; decrypt returns check_tag's verdict and refuses inputs shorter than a tag")
     ck.rule("R-C08-LOCKSTEP", "cursors and remaining length advance in lock-step; residues 0..3 each handled once")
     ck.rule("R-C08-READS", "every word and tail of the keystream pass reads only the input bytes of its own segment (decrypt: plus the 8 tag bytes behind it): a read past the message can fault "
